@@ -7,6 +7,7 @@ BASE_NOTE = ("trusted base (listed per run in evidence.coverage.trusted_base): I
              "closed world for module interfaces, float64 as extended rounded reals, int as mathematical integer unless 'overflow', "
              "each function a sequential atomic step, go/ssa + SMT solvers")
 CHECKS = {
+ "C10": ("other", "partial proof: the stall branch of calculateTargetPwm (unchanged request, average <= 0 => request+1, floor+1, average re-armed to 1; at the maximum => ErrFanStalledAtMaxPwm, which UpdateFanSpeed returns without writing) and the RPM monitor step (file/cmd fans: the average is the last reading, so one zero reading suffices; non-negativity; floor and last request untouched) are discharged. The necessary condition for a bounded response on hwmon fans - an average in (0,1] collapses to 0 on the next zero reading - fails (known finding with a replay: no raise in 2000 polls). The geometric decay argument linking the per-poll clauses to 'tens of polls' is a meta-argument, not machine-checked", BASE_NOTE),
  "C12": ("proof", "all obligations of FindClosest/getClosest (nearest, member, exact, index safety, overflow, termination), SortedKeys/ExtractKeysWithDistinctValues (ascending, first key of every run of equal outputs, characterised without gaps), updateDistinctPwmValues and setPwm (the only write is pwmMap[nearest supported input]) are discharged for all maps and requests", BASE_NOTE + "; sort.Ints/sort.Slice contract assumed"),
  "C01": ("proof", "every obligation of the regulation step (calculateTargetPwm, setPwm, UpdateFanSpeed, both control loops, all fan backends) is discharged: the request lies in [fan min, fan max], the only PWM write of a cycle is pwmMap[nearest supported input of that request], hence in 0..255 for maps with outputs in 0..255; holds for arbitrary curve values, loop states and RPM histories because the controller invariant ctrlInv is preserved by every step (after the fix: commit 9d733a1)", BASE_NOTE + "; curve evaluation abstracted to an arbitrary int"),
  "C08": ("proof", "updateSensor (all four sensor kinds): a poll that returns an error leaves the smoothed value bit-identical; a successful poll yields a finite average inside [min(old, reading), max(old, reading)] for window sizes >= 2 (float64 modelled as rounded reals; readings and averages up to 1e300, |reading - average| >= 1e-290 or equal); every GetValue returns an error when the underlying read failed and only finite values (after fixes 8501fbc, 061db47); UpdateSimpleMovingAvg has a fixpoint at old == new. Not covered: the geometric rate (1-1/n) and window size 1 (double rounding)", BASE_NOTE + "; ParseFloat may return any float on success; the history-level hull follows from the per-poll hull by induction (meta-argument, DESIGN 2.9)"),
